@@ -553,7 +553,26 @@ impl World {
     /// Historical read (C07): the full projection at `heads`, plus the same projection of
     /// fork_at(heads) (which must be a document holding exactly the ancestors of heads).
     pub fn probe_readat(&mut self, r: usize, heads: &[ChangeHash]) {
-        let ev = json!({"ev":"readat","r":r+1,"heads":enc::hashes_sorted(heads)});
+        // the ancestors of `heads`, from the dependency lists of the changes as they were created (not from the
+        // document under test): lets Trace_Same compare the read with the live observation of exactly those changes
+        let anc: Option<Vec<String>> = {
+            let mut seen: std::collections::BTreeSet<String> = Default::default();
+            let mut stack: Vec<String> = heads.iter().map(enc::hash_str).collect();
+            let mut complete = true;
+            while let Some(h) = stack.pop() {
+                if seen.insert(h.clone()) {
+                    match self.known.get(&h) {
+                        Some(c) => stack.extend(c.deps().iter().map(enc::hash_str)),
+                        None => complete = false,
+                    }
+                }
+            }
+            if complete { Some(seen.into_iter().collect()) } else { None }
+        };
+        let mut ev = json!({"ev":"readat","r":r+1,"heads":enc::hashes_sorted(heads)});
+        if let Some(a) = anc {
+            ev["anc"] = json!(a);
+        }
         let heads = heads.to_vec();
         let saved = self.obs_level;
         self.guarded(r, ev, |w| {
